@@ -2,6 +2,7 @@ import IcyVerif.Model.TermFileWrap
 import IcyVerif.Model.TermFileOther
 import IcyVerif.Model.Loaders
 import IcyVerif.Model.SixelLoad
+import IcyVerif.Model.SixelShadow
 import IcyVerif.Model.Unicode
 /-! # TextLoad — `Buffer::from_bytes` for the text formats
 `Buffer::from_bytes` (src/buffers.rs: extension match, SAUCE cut-off — `Model/Loaders.lean: dispatchLen`) →
@@ -95,9 +96,11 @@ inductive Out where
 deriving Repr
 
 /-- the sixel part of `parse_with_parser`: every queued decode finishes, is joined, becomes an image layer.
-    `res i` = what the decode thread of the `i`-th queued sequence returns. -/
-def joinSixels (fw fh : Int) (res : Nat → IcyVerif.SixelQueue.Res) (n : Nat) : IcyVerif.SixelLoad.LoadOut :=
-  IcyVerif.SixelLoad.loadSixels { fw := fw, fh := fh, res := res } (List.range n) [List.range n]
+    `res i` = what the decode thread of the `i`-th queued sequence returns.  The poll is the one of
+    `Model/SixelShadow.lean`: the shadow-removal loop of `update_sixel_threads` with its index arithmetic, `.error` =
+    a `vec[i]` / `vec.remove(i)` / `sixel_count -= 1` that panics. -/
+def joinSixels (fw fh : Int) (res : Nat → IcyVerif.SixelQueue.Res) (n : Nat) : Except String IcyVerif.SixelLoad.LoadOut :=
+  IcyVerif.SixelShadow.loadSixelsX { fw := fw, fh := fh, res := res } (List.range n) [List.range n]
 
 /-- `Layer::new(size)` allocates `size.height as usize` rows: the line count of an image layer -/
 def imgLines (l : IcyVerif.SixelLoad.ImgLayer) : Nat := l.ch.toNat
@@ -113,11 +116,12 @@ def resOf (dec : Decoder) (q : List (Int × Int × List Char)) (id : Nat) : IcyV
 /-- end of `parse_with_parser`: join, image layers, crop (`height = max line count over all layers`) -/
 def finish (p : Parsed) (fw fh : Int) (dec : Decoder) : Out :=
   match joinSixels fw fh (resOf dec p.sixq) p.sixq.length with
-  | .err => .err
-  | .divZero => .panic "formats/mod.rs::parse_with_parser"     -- division by a font dimension of 0
-  | .blocked => .panic "model: join blocked"
-  | .waiting => .panic "model: join waiting"
-  | .ok imgs =>
+  | .error e => .panic e                                              -- index slip in the shadow-removal loop
+  | .ok .err => .err
+  | .ok .divZero => .panic "formats/mod.rs::parse_with_parser"     -- division by a font dimension of 0
+  | .ok .blocked => .panic "model: join blocked"
+  | .ok .waiting => .panic "model: join waiting"
+  | .ok (.ok imgs) =>
     let rows := cropRows p.r.lens
     let h : Int := ((imgs.map imgLines).foldl max rows.size : Nat)
     .ok ⟨p.s.bw, h, p.r.lw, h, rows, imgs, p.c.x, p.c.y⟩
